@@ -6,4 +6,4 @@ export NETQASM_VERIF=1
 # regenerate the data translated from /repo so that the build matches the current tree
 /venv/bin/python tools/translate_all.py
 cd lean
-lake build NetqasmVerif nqdriver
+lake build NetqasmVerif nqdriver $(/venv/bin/python ../tools/all_targets.py)
